@@ -184,7 +184,7 @@ class Sim(object):
 
     # ------------------------------------------------------------ oracles
     def pool_check(self, op, when):
-        bad = self.pool.check_all()
+        bad = self.pool.check_everything() if when == 'run-end' else self.pool.check_all()
         for inf, now in bad:
             self.violate('O1.pool', op, {'when': when, 'kind': inf.kind, 'model': inf.snap, 'now': now,
                                          'const': inf.const, 'born': inf.born}, blame='pool:' + inf.kind)
@@ -454,6 +454,9 @@ class Sim(object):
         self.count('ops.' + e.group)
         if ctx.depth:
             self.count('ops_nested')
+        dropped = pool.age(op['id'], self.hs)
+        if dropped:
+            self.count('handles_aged_out', dropped)
         pool.gc()
 
     def register_result(self, ctx, val):
